@@ -4,6 +4,7 @@ package main
 
 import (
 	"fmt"
+	"go/constant"
 	"go/token"
 	"go/types"
 	"os"
@@ -29,6 +30,25 @@ func condEdges(v ssa.Value) (whenTrue, whenFalse []edgeKey) {
 				f, t := condEdges(x)
 				whenTrue = append(whenTrue, t...)
 				whenFalse = append(whenFalse, f...)
+			}
+		case *ssa.BinOp:
+			// v == true / v != false keep the sense, v == false / v != true invert it
+			if (x.Op == token.EQL || x.Op == token.NEQ) && isBoolType(v.Type()) {
+				other := x.Y
+				if other == v {
+					other = x.X
+				}
+				if c, ok := other.(*ssa.Const); ok && c.Value != nil && c.Value.Kind() == constant.Bool {
+					same := constant.BoolVal(c.Value) == (x.Op == token.EQL)
+					t, f := condEdges(x)
+					if same {
+						whenTrue = append(whenTrue, t...)
+						whenFalse = append(whenFalse, f...)
+					} else {
+						whenTrue = append(whenTrue, f...)
+						whenFalse = append(whenFalse, t...)
+					}
+				}
 			}
 		case *ssa.Phi:
 			// `a && b` lowers to a phi of (false, b): handle the common shape where the phi only
